@@ -4,6 +4,8 @@ pub mod c01_04;
 pub mod c05;
 pub mod c06;
 pub mod c10;
+pub mod c11;
+pub mod c12;
 pub mod c13;
 pub mod qh;
 
@@ -16,6 +18,8 @@ pub fn run(ctx: &Ctx) -> Option<Report> {
         "C05" => c05::run(ctx),
         "C06" => c06::run(ctx),
         "C10" => c10::run(ctx),
+        "C11" => c11::run(ctx),
+        "C12" => c12::run(ctx),
         "C13" => c13::run(ctx),
         _ => return None,
     })
@@ -27,6 +31,8 @@ pub fn replay(id: &str, engine: &str, case: &Value) -> Result<(), String> {
         "C05" => c05::replay(engine, case),
         "C06" => c06::replay(case),
         "C10" => c10::replay(engine, case),
+        "C11" => c11::replay(engine, case),
+        "C12" => c12::replay(engine, case),
         "C13" => c13::replay(engine, case),
         _ => Err(format!("unknown property {}", id)),
     }
